@@ -10,7 +10,7 @@ from checks import c03
 
 def run(ctx):
     T = ctx.thorough()
-    ctx.bounds = {'type expressions': '61 fixed (quick; 63 thorough) + 40 seeded nestings of depth <= 3 (thorough)', 'values': 'every value (kani::any); collections <= 2 elements (BTreeMap/BTreeSet/BinaryHeap <= 1), strings "", "a", "Zq"; BTree keys concrete',
+    ctx.bounds = {'type expressions': '66 fixed (quick; 68 thorough) + 40 seeded nestings of depth <= 3 (thorough)', 'values': 'every value (kani::any); collections <= 2 elements (BTreeMap/BTreeSet/BinaryHeap <= 1), strings "", "a", "Zq"; BTree keys concrete',
                   'encoded size': '<= 96 bytes', 'shape only': 'char, 19- and 20-tuples, str, [T], &[T], BitVec<u8,Lsb0>, BitVec<u16,Msb0>'}
     ctx.outside = ['BTreeMap / BTreeSet value level: B-tree iteration is out of CBMC\'s reach (timeout with a single element) - native sampling through the generated decoder and static shape only, NOT solver-decided', 'BitVec value level (bitvec under CBMC not attempted; the BitSequence shape is checked statically)', 'collections with more elements, nesting deeper than 3', 'Compact<u128> (reader handles 64-bit compacts)']
     ctx.assumptions = ['Kani: unwinding assertions on, default checks on, no stubs']
